@@ -230,11 +230,13 @@ pub fn signal_env(p: SigPlan) -> impl FnMut(&mut Sim, u64) -> bool + use<> {
         {
             let h = sim.ctl.history.borrow();
             for e in &h[seen..] {
-                if e.kind == "mark" && e.pid == 2 {
+                if e.kind == "mark" && e.text.starts_with("disarmed") {
+                    // (any process may disarm: a child of the command that
+                    // ends the shell does so while the shell waits for it)
+                    armed = false;
+                } else if e.kind == "mark" && e.pid == 2 {
                     if e.text.starts_with("armed") {
                         armed = true;
-                    } else if e.text.starts_with("disarmed") {
-                        armed = false;
                     } else if e.text.starts_with("te ") {
                         ends += 1;
                     }
